@@ -864,6 +864,13 @@ func (e *Engine) loopCallEffects(st *State, fr *frame, li *loopInfo, cc *ssa.Cal
 						dims++
 					}
 				}
+				switch root.(type) {
+				case *ssa.Alloc, *ssa.MakeSlice:
+					// an object allocated by the callee itself: fresh at every call,
+					// so only references above the loop-entry frontier are touched
+					*allocKeys = append(*allocKeys, e.leafKeys(key, x.Val.Type(), dims)...)
+					continue
+				}
 				*whole = append(*whole, e.leafKeys(key, x.Val.Type(), dims)...)
 			case *ssa.MapUpdate:
 				mt := x.Map.Type().Underlying().(*types.Map)
